@@ -32,6 +32,7 @@ MIN_COUNTERS = {'on_evaluate_starts': 1}
 _mon = {}
 _counts = {'on_evaluate_starts': 0}
 _per_node = {}
+_route = ['config']
 
 
 def _inner_function(f):
@@ -148,7 +149,7 @@ def gen_case(rng, tier):
     for o in perms:
         d = M([doc['items'][i] for i in o])
         ptexts.append([emit.emit(d, style)] + texts[1:])
-    return {'texts': texts, 'perms': ptexts, 'prods': [{'path': list(p['path']), 'name': p['name'], 'top': p['top'], 'deleted': p in deleted} for p in prods], 'cons': cons}
+    return {'route': rng.choice(['config', 'ctx']), 'texts': texts, 'perms': ptexts, 'prods': [{'path': list(p['path']), 'name': p['name'], 'top': p['top'], 'deleted': p in deleted} for p in prods], 'cons': cons}
 
 
 def _tag(v):
@@ -172,7 +173,7 @@ def evaluate(texts):
     import verif_targets
     verif_targets.reset()
     _per_node.clear()
-    got = lib.outcome(lambda: lib.build(texts))
+    got = lib.outcome(lambda: lib.build_via(texts, _route[0]))
     log = list(verif_targets.LOG)
     twice = [k for k, v in _per_node.items() if k != 'keep' and v > 1]
     _counts['on_evaluate_starts'] += sum(v for k, v in _per_node.items() if k != 'keep')
@@ -183,6 +184,7 @@ def evaluate(texts):
 
 def run(case):
     texts = case['texts']
+    _route[0] = case.get('route', 'config')
     got, log, twice = evaluate(texts)
     vio = []
     feats = ['producers=%d' % len(case['prods']), 'consumers=%d' % min(len(case['cons']), 8)] + ['consumer_' + c['kind'] for c in case['cons']]
